@@ -240,11 +240,11 @@ PLACEMENTS = [  # (name, scale, r offset of the left-most vertex, z offset)
 ]
 
 
-def place(rng, vs, placement=None):
+def place(rng, vs, placement=None, rotate=True):
     name, s, r0, z0 = placement or rng.choice(PLACEMENTS)
-    th = rng.uniform(0, 2 * math.pi) if name != 'axis' or True else 0.0
+    th = rng.uniform(0, 2 * math.pi)
     c, sn = math.cos(th), math.sin(th)
-    if all(float(x).is_integer() and float(y).is_integer() for x, y in vs):
+    if not rotate:
         c, sn = 1.0, 0.0
     out = [(s * (c * x - sn * y), s * (sn * x + c * y)) for x, y in vs]
     mn = min(x for x, _ in out)
@@ -611,12 +611,14 @@ def run(ctx):
 
     # ---- polygons: geometry (K + S) and sampling cases ----------------------------------------------------------
     kinds = ['tri', 'rect', 'convex', 'star', 'ortho', 'general']
-    npoly = ctx.n(36, 700)
+    npoly = ctx.n(96, 4800)
     voxels_for_grid = []
     for it in range(npoly):
         kind = kinds[it % len(kinds)]
         base = base_polygon(rng, kind)
-        placement, vs = place(rng, base, PLACEMENTS[(it // len(kinds)) % len(PLACEMENTS)])
+        placement, vs = place(rng, base, PLACEMENTS[(it // len(kinds)) % len(PLACEMENTS)],
+                              rotate=not (kind in ('rect', 'ortho') and (it // (len(kinds) * len(PLACEMENTS))) % 2 == 0))
+        ctx.count('placement:' + placement)
         if not is_simple(vs):
             ctx.count('generator:rejected-not-simple')
             continue
@@ -630,7 +632,7 @@ def run(ctx):
         n = rng.choice([1, 2, 7, 10, 50])
         coef = [rng.uniform(-2, 2) for _ in range(4)] if it % 5 else [rng.uniform(-2, 2), 0.0, 0.0, 0.0]
         emis_cases.append((emis_case(ctx, vox, desc, n, coef, rng.randrange(1, 2 ** 62)), vox, moments))
-    for it in range(ctx.n(12, 200)):
+    for it in range(ctx.n(30, 1500)):
         vs = dyadic_polygon(rng)
         if not is_simple(vs):
             ctx.count('generator:rejected-not-simple')
@@ -656,7 +658,7 @@ def run(ctx):
             jobs.append((line_geom(deg), ('degenerate', dict(vertices=deg), g)))
 
     # ---- grids: total volume ------------------------------------------------------------------------------------------
-    for it in range(ctx.n(8, 120)):
+    for it in range(ctx.n(16, 600)):
         m = rng.choice([1, 2, 3, 5, 8, 13]) if it else 0
         cells = [rng.choice(voxels_for_grid) for _ in range(m)] if voxels_for_grid else []
         if rng.random() < 0.3 and m:
@@ -686,7 +688,7 @@ def run(ctx):
     # ---- find_index: raysect's bisection vs the model, incl. exact hits of the knots ----------------------------------------
     from harness.vlib import shim
     sh = shim.ensure()
-    for it in range(ctx.n(150, 3000)):
+    for it in range(ctx.n(400, 20000)):
         m = rng.randint(1, 12)
         xs = sorted(rng.choice([rng.uniform(0, 4), float(rng.randint(0, 8)) / 4]) for _ in range(m))
         if rng.random() < 0.5:
@@ -754,14 +756,21 @@ def run(ctx):
     # ---- S: unbiasedness (statistical), per polygon class ----------------------------------------------------------------------------
     stat_cases = [e for e in keep if len(e[0]['tris']) >= 2]
     rng.shuffle(stat_cases)
-    for c, vox, mom in stat_cases[:ctx.n(10, 60)]:
-        statistical_mean(ctx, c, vox, mom, flags, ctx.n(40000, 200000))
+    for c, vox, mom in stat_cases[:ctx.n(12, 200)]:
+        statistical_mean(ctx, c, vox, mom, flags, ctx.n(40000, 300000))
 
     # ---- float-gap monitor -> demonstration on the implementation --------------------------------------------------------------------------
     ctx.extra['monitor_tri_index_in_range'] = dict(polygons=monitor['polygons'], polygons_with_reachable_out_of_range=monitor['reachable'],
                                                    worst_probability_per_sample=monitor['worst_p'], worst=monitor['worst'])
     if flags['scale_is_total']:
         search_oob(ctx, flags)
+    # one written-out case per stream for the evidence file
+    reps = {}
+    for smp in ctx.samples + [dict(stream='find', x=j[1][1]['x'], v=j[1][1]['v'], find_index=j[1][2]) for j in jobs if j[1][0] == 'find'][:1] + \
+            [dict(stream='emis', vertices=c['verts'], triangles=c['tris'], seed=c['seed'], grid_samples=c['n'], coef=c['coef']) for c, _, _ in keep[:1]] + \
+            [dict(stream='grid', total_volume_line=j[0][:120]) for j in jobs if j[1][0] == 'tot'][1:2]:
+        reps.setdefault(smp.get('stream', '?'), smp)
+    ctx.samples = list(reps.values())
     ctx.log('polygons %d, K lines %d, emis cases %d, monitor reachable %d/%d (worst p %.3g)' % (
         npoly, len(jobs), len(keep), monitor['reachable'], monitor['polygons'], monitor['worst_p']))
 
@@ -792,11 +801,13 @@ def statistical_mean(ctx, c, vox, mom, flags, n):
     span = max(max(x for x, _ in verts) - min(x for x, _ in verts), max(y for _, y in verts) - min(y for _, y in verts))
 
     vals = []
+    pts = []
 
     def f(r, phi, z):
         x, y = (r - r0) / span, (z - z0) / span
         v = coef[0] + coef[1] * x + coef[2] * y + coef[3] * x * y
         vals.append(v)
+        pts.append((r, z))
         return v
     # exact mean of f over the cross-section
     R0, Z0, SP = Fr(r0), Fr(z0), Fr(span)
@@ -825,6 +836,26 @@ def statistical_mean(ctx, c, vox, mom, flags, n):
     if abs(est - true_mean) > 5 * sigma + 1e-12:
         ctx.fail('C17:emissivity_from_function:biased-mean',
                  'estimate %r over %d samples, exact area-mean %r, 5 sigma = %r (polygon %r)' % (est, n, true_mean, 5 * sigma, verts), desc)
+    # area-weighted choice, observed directly: share of the samples falling in each triangle of the triangulation
+    tris = c['tris']
+    P = verts
+    cnt = [0] * len(tris)
+    for (r, z) in pts:
+        for j, (a, b, d) in enumerate(tris):
+            o1 = (P[b][0] - P[a][0]) * (z - P[a][1]) - (P[b][1] - P[a][1]) * (r - P[a][0])
+            o2 = (P[d][0] - P[b][0]) * (z - P[b][1]) - (P[d][1] - P[b][1]) * (r - P[b][0])
+            o3 = (P[a][0] - P[d][0]) * (z - P[d][1]) - (P[a][1] - P[d][1]) * (r - P[d][0])
+            if (o1 >= 0 and o2 >= 0 and o3 >= 0) or (o1 <= 0 and o2 <= 0 and o3 <= 0):
+                cnt[j] += 1
+                break
+    for j, (a, b, d) in enumerate(tris):
+        pj = float(abs(_orient(*[(Fr(P[i][0]), Fr(P[i][1])) for i in (a, b, d)])) / 2 / A)
+        sd = math.sqrt(n * pj * (1 - pj))
+        if abs(cnt[j] - n * pj) > 6 * sd + 2:
+            ctx.fail('C17:emissivity_from_function:triangle-choice-not-area-weighted',
+                     'triangle %d of %d holds %d of %d samples, expected %.1f +- %.1f (area share %.6f), polygon %r' % (j, len(tris), cnt[j], n, n * pj, sd, pj, verts), desc)
+            break
+    ctx.count('stat:triangle-frequency-tests', len(tris))
     ctx.extra.setdefault('stat_max_sigma', 0.0)
     ctx.extra['stat_max_sigma'] = max(ctx.extra['stat_max_sigma'], abs(est - true_mean) / sigma if sigma > 0 else 0.0)
 
@@ -838,7 +869,7 @@ def search_oob(ctx, flags):
     rng = ctx.rng
     best = None
     lines, cands = [], []
-    for it in range(ctx.n(60, 400)):
+    for it in range(ctx.n(60, 1200)):
         base = base_polygon(rng, rng.choice(['star', 'convex', 'general']))
         _, vs = place(rng, base, ('far', 1e-3, 1000.0, 1000.0))
         if not is_simple(vs):
@@ -858,7 +889,7 @@ def search_oob(ctx, flags):
         if oob_reachable(total, cum):
             ranked.append(((total - cum[-1]) / total, verts, tris, total, cum))
     ranked.sort(key=lambda t: -t[0])
-    for p, verts, tris, total, cum in ranked[:3]:
+    for p, verts, tris, total, cum in ranked[:ctx.n(3, 12)]:
         if p < 2e-6:
             break
         seed_ = rng.randrange(1, 2 ** 62)
